@@ -43,6 +43,11 @@ ForkChecks(t) ==
   /\ Chk("C08", "conflicting-tasks-may-overlap", \A u \in open : ~Dyn(t, u))
   /\ Chk("C07", "started-before-conflicting-predecessor-finished",
          \A u \in 1..(t - 1) : Dyn(u, t) => u \in done)
+  \* resources: a task that reads or writes a resource never overlaps a task writing it, and sees
+  \* the writes of every earlier task (C15 under scheduling)
+  /\ Chk("C15", "resource-access-overlaps-a-conflicting-one", \A u \in open : ~ResConflict(Tasks[t], Tasks[u]))
+  /\ Chk("C15", "resource-access-started-before-conflicting-predecessor-finished",
+         \A u \in 1..(t - 1) : ResConflict(Tasks[u], Tasks[t]) => u \in done)
   /\ Chk("C07", "started-after-conflicting-successor",
          \A u \in (t + 1)..NT : Dyn(u, t) => u \notin (started \cup open))
 OnFork ==
@@ -82,7 +87,10 @@ OnFinal ==
   /\ Chk("C12", "independent-adjacent-tasks-serialised",
          \A a \in 1..NT : \A b \in (a + 1)..NT :
             StageOf(Tasks, a) = StageOf(Tasks, b) =>
-               ({a, b} \in coopen \/ a \in early \/ b \in early))
+               \* members of one greedy group overlap; excused only when exactly one of them was
+               \* started early (with the previous stage) and the other had to wait for that stage.
+               \* Two members that were both started early must overlap like any other pair.
+               ({a, b} \in coopen \/ ((a \in early) # (b \in early))))
   /\ Chk("HARNESS", "fork-still-open-at-end", open = {})
   /\ UNCHANGED <<cur, open, started, done, coopen, early>>
 
